@@ -394,6 +394,27 @@ class Callee:
         raise Undecided('return value of %s' % con.qual)
 
 
+def _apply_method(self, ex, obj, meth):
+    """caller-side use of an elementary-function METHOD contract (x.cos()): requires checked, a new object whose data satisfy the
+    contract's postcondition, argument untouched"""
+    con = self.c; st = ex.st
+    if getattr(con, 'obj', None) != 'self' or not hasattr(con, 'value'): raise Undecided('method .%s() has no functional contract' % meth)
+    if make_alg(con.alg).name != st.alg.name: raise Undecided('method %s has another cell algebra' % con.qual)
+    d = obj.attrs.get('data')
+    if not isinstance(d, View): raise Undecided('receiver of .%s() has no data array' % meth)
+    st.whole(d)
+    if ex.entails(d.length == ex.D) is not True: raise Undecided('receiver of .%s() is not a full-length array' % meth)
+    key = 'self.data'; pre = {key: st.heap[d.base][0]}; names = {key: d.base}
+    sub = _SubCtx(ex, pre, names, {'self': obj}, con)
+    for r in con.requires(sub): st.add_oblig('callee %s requires' % con.qual.split('.')[-1], r, 'callee-pre')
+    nb = st.new_base(ex.D, name='ret_' + meth); R = st.heap[nb][0]
+    st.fresh += 1; q = z3.Int('j!m%d' % st.fresh)
+    f = z3.ForAll([q], z3.Implies(z3.And(0 <= q, q < ex.D), z3.Select(R, q) == con.value(sub, q)))
+    sub.ensured = [f]; st.assume.append(f); st.callee_log.append((con, sub)); sub.assumed = True
+    return E.ObjV(obj.cls, {'data': View(nb, z3.IntVal(0), 1, ex.D)})
+Callee.apply_method = _apply_method
+
+
 def _is_spec_definition(f): return False
 
 
@@ -424,6 +445,12 @@ def verify_cfg(contract, cfgname, registry, repo, D=None, timeout_ms=None):
         res.sha = sha
     except Undecided as e:
         res.undecided = str(e); res.wall = time.time() - t0; return res
+    except (AttributeError, TypeError, KeyError, IndexError, ValueError, AssertionError, z3.Z3Exception) as e:
+        # the executor met a construct it does not model (e.g. numpy.dot applied to whole coefficient arrays): outside the verified subset
+        import traceback
+        where = traceback.extract_tb(e.__traceback__)[-1]
+        res.undecided = 'construct outside the executor\'s subset (%s: %s at %s:%d)' % (type(e).__name__, str(e)[:120], where.filename.split('/')[-1], where.lineno)
+        res.wall = time.time() - t0; return res
     alg = st.alg
     tmo = timeout_ms or contract.timeout_ms
     for ob in st.oblig:
